@@ -27,6 +27,18 @@ Fixpoint request_times (i t min max : Z) (draws : list Z) : list Z :=
        | [] => []
        | r :: ds => request_times (i + 1) (t + multicast_delay i min max r) min max ds
        end.
+(* the same loop when the consumer of the (unbuffered) request channel is slow: the n-th request is
+   offered at O_n; the consumer is ready again gap_n after it took the previous one; the request is taken at
+   R_n = max(O_n, R_{n-1} + gap_n) and the loop's wait starts only then: O_{n+1} = R_n + delay(n, r_n).
+   Returns the instants R_n. *)
+Fixpoint taken_times (i o prev min max : Z) (draws gaps : list Z) : list Z :=
+  let g := match gaps with x :: _ => x | [] => 0 end in
+  let r := Z.max o (prev + g) in
+  r :: match draws with
+       | [] => []
+       | d :: ds => taken_times (i + 1) (r + multicast_delay i min max d) r min max ds (tl gaps)
+       end.
+
 Fixpoint waits (i min max : Z) (draws : list Z) : list Z :=
   match draws with
   | [] => []
